@@ -14,8 +14,11 @@ LEVEL = ('decides the wiring of reification: the wrapped propagator runs only on
          '(R4); reify posts c←r and ¬c←¬r (R5); negation is an involution on constraint types (R6); '
          'eager reasons are extended with the literal and lazy ones become ReifiedLazy whose '
          'evaluation appends it (R7); post and implied_by of one constraint post the same sub-'
-         'constraints (R8). Predicate negation is the exact complement (R9). Does not decide that '
-         "wrapped propagators or the negations' arithmetic are right")
+         'constraints (R8). Predicate negation is the exact complement (R9). the arithmetic constraint'
+         ' builders (≤, <, =, ≠, plus, maximum, minimum and the binary forms) and the negations of '
+         'Inequality / Equal / NotEqual mean what they say, decided by abstract evaluation in the '
+         'linear-form domain on a 5-value window (R10). Does not decide that wrapped propagators or '
+         "the negations' arithmetic are right")
 TECHNIQUE = "static analysis: dominance / FORWARD-ALL / taint through closures / sibling agreement over rustc MIR"
 
 REIF = "ReifiedPropagator"
